@@ -231,6 +231,7 @@ func hookYield(ctx context.Context, point string) {
 	}
 	t := s.lookup()
 	if t == nil {
+		parkActor(point) // conc-inst actors (no-op for everybody else)
 		return
 	}
 	s.park(t, point)
@@ -258,6 +259,8 @@ func hookPick(point string, n int) int {
 	id := "driver"
 	if t := s.lookup(); t != nil {
 		id = t.ID
+	} else if v, ok := instActors.Load(gid()); ok {
+		id = v.(*actor).name
 	}
 	v := s.T.Choose("pick:"+point, n)
 	s.Logf("  pick %s %s -> %d/%d", id, point, v, n)
